@@ -31,7 +31,7 @@ UMembers == <<Mem("int8", Rg(<<P2(c1, c5)>>)), Mem("string", Ln(<<P1(c2)>>)), Me
 UnionItems == {[kind |-> "union", a |-> UMembers[i], b |-> UMembers[j], c |-> UMembers[k]] : i \in 1..5, j \in 1..5, k \in 1..5}
 IdItems == {[kind |-> "identity", x |-> Idents[i]] : i \in 1..Len(Idents)}
 SmallStrs == {<< >>} \cup {<<x>> : x \in {ca, cb, cc}} \cup {<<x, y>> : x \in {ca, cb, cc}, y \in {ca, cb, cc}} \cup {<<x, y, z>> : x \in {ca, cb, cc}, y \in {ca, cb, cc}, z \in {ca, cb}}
-RegexItems == {[kind |-> "regex", re |-> AllPats[i], s |-> s] : i \in 1..Len(AllPats), s \in SmallStrs \cup {<<ce, ce>>, <<ca, cb, ca, cb>>, <<ca, cb, cc>>, <<ca, cb, ca, cb, cc>>}}
+RegexItems == UNION {{[kind |-> "regex", re |-> AllPats[i], s |-> s] : s \in SmallStrs \cup {<<ce, ce>>, <<ca, cb, ca, cb>>, <<ca, cb, cc>>, <<ca, cb, ca, cb, cc>>} \cup AnchorProbes(AllPats[i])} : i \in 1..Len(AllPats)}
 Items(f) == CASE f = 20001 -> SubsetItems [] f = 20002 -> ArithItems [] f = 20003 -> UnionItems [] f = 20004 -> IdItems [] f = 20005 -> RegexItems
               [] OTHER -> {[kind |-> "chain", ch |-> ch, rich |-> Rich(f)] : ch \in ChainsOf(f, MaxDepth)}
 \* --- laws
